@@ -3,7 +3,9 @@
 # independent session to its scratch worktree, confirm the suite still passes, run the quick check of
 # every property anchored in a touched file against the changed copy, and file the outcome under
 # /verif/seeded/rewrites/<id>/.  A VIOLATION here is a FALSE ALARM of the machinery (or the rewrite is
-# not harmless -- to be decided by reading the replay).  Usage: tools/try_rewrite.sh <worktree> <rk> <id>
+# not harmless -- to be decided by reading the replay).  The deepened pass is off by default here
+# (VERIF_NO_DEEPEN=1; set VERIF_NO_DEEPEN= to include it): the question is whether the comparison alarms,
+# which the quick universe already answers.  Usage: tools/try_rewrite.sh <worktree> <rk> <id>
 WT=$1; R=$2; ID=$3
 cd "$WT" || exit 2
 git checkout -q -- src; git checkout -q --detach main 2>/dev/null
@@ -24,7 +26,7 @@ cp out/$R/patch.diff $D/patch.diff; cp out/$R/note.json $D/note.json 2>/dev/null
 : > $D/checks.txt
 for P in $PROPS; do
   echo "--- $P" | tee -a $D/checks.txt
-  /verif/tools/try_mutant.sh "$WT" "$P" quick 2>&1 | grep -E "^\[C|VIOLATION|KNOWN|error|failure" | head -8 | tee -a $D/checks.txt
+  VERIF_NO_DEEPEN=${VERIF_NO_DEEPEN-1} /verif/tools/try_mutant.sh "$WT" "$P" quick 2>&1 | grep -E "^\[C|VIOLATION|KNOWN|error|failure" | head -8 | tee -a $D/checks.txt
 done
 git checkout -q -- src
 python3 - "$D" "$T" "$FILES" <<'PY'
